@@ -3,9 +3,10 @@
    proved in proofs/CliProofs.v, with Print Assumptions beneath it.
 
    The domain is the finite configuration space of model/Cli.v: argument kind
-   (10: the seven of the statement plus three kinds of argument that cannot be
-   identified - no scheme and no such path; urlparse raises; a URL the library refuses -) x --type (5) x dereference x filename x recursive x verify (none /
-   matching / non-matching) x exclude = 2400 configurations.  [identify_model]
+   (11: the seven of the statement plus four kinds of argument that cannot be
+   identified (as such) - no scheme and no such path; urlparse raises; a URL the library
+   refuses; a git repository whose references cannot be read -) x --type (5) x dereference x filename x recursive x verify (none /
+   matching / non-matching) x exclude = 2640 configurations.  [identify_model]
    transcribes the control flow of identify + identify_object over the tabulated
    answers of the operating system; [spec] is the property. *)
 From Coq Require Import List Bool.
@@ -18,8 +19,8 @@ Theorem C18_all_cfgs_complete : forall c : cfg, In c all_cfgs.
 Proof. exact all_cfgs_complete. Qed.
 Print Assumptions C18_all_cfgs_complete.
 
-(* ... which has exactly 2400 pairwise distinct elements. *)
-Theorem C18_all_cfgs_count : length all_cfgs = 2400 /\ NoDup all_cfgs.
+(* ... which has exactly 2640 pairwise distinct elements. *)
+Theorem C18_all_cfgs_count : length all_cfgs = 2640 /\ NoDup all_cfgs.
 Proof. exact all_cfgs_count. Qed.
 Print Assumptions C18_all_cfgs_count.
 
@@ -31,7 +32,7 @@ Print Assumptions C18_all_cfgs_count.
    a recursive listing; recursive listing with a non-directory type;
    verification against an identifier that is not a core SWHID), or the
    verification exit code.  In scope = --type auto or the type of the
-   designated object (model/Cli.v, [in_scope]): 912 configurations. *)
+   designated object (model/Cli.v, [in_scope]): 1056 configurations. *)
 Theorem C18_agree : forall c, in_scope c = true -> identify_model c = spec c.
 Proof. exact agree. Qed.
 Print Assumptions C18_agree.
@@ -72,7 +73,7 @@ Theorem C18_print_designated : forall c o ex sh ls, in_scope c = true ->
 Proof. exact print_designated. Qed.
 Print Assumptions C18_print_designated.
 
-(* The five behaviours repaired in /repo, as refutations of the old code
+(* The six behaviours repaired in /repo, as refutations of the old code
    (the old code is the model with one switch of [variant] turned on).
    (1) `swh identify <link->dir>`: realpath(obj) is a str -> TypeError. *)
 Theorem C18_agree_refuted_old_realpath : exists c, in_scope c = true /\
@@ -111,14 +112,36 @@ Theorem C18_agree_refuted_old_origin_uncaught : exists c, in_scope c = true /\ i
 Proof. exact agree_refuted_old_originuncaught. Qed.
 Print Assumptions C18_agree_refuted_old_origin_uncaught.
 
+(* (6) `swh identify -t snapshot <repository whose packed-refs file is empty>`:
+   dulwich raises StopIteration while reading the references; zip/map took it
+   for the end of the results: nothing printed, exit code 0. *)
+Theorem C18_agree_refuted_old_stop_swallowed : exists c, in_scope c = true /\ in_scope_literal c = true /\
+  identify_old_stopswallowed c = Silent /\ spec c = Usage /\ identify_model c = spec c.
+Proof. exact agree_refuted_old_stopswallowed. Qed.
+Print Assumptions C18_agree_refuted_old_stop_swallowed.
+
+(* ... and with several arguments the run stopped WITHOUT an error, dropping
+   that argument and every following one (one line, exit 0); the code of today
+   ends with the usage error after the line already printed. *)
+Theorem C18_many_refuted_old_stop_swallowed :
+  let c := mkCfg AFile TSnapshot true true false VNone false in
+  let ks := [AGitRepo; ABadRefsRepo; AGitRepo] in
+  in_scope_many c ks = true /\
+  identify_many_gen old_stopswallowed c ks = MOut [(OSnapshot, false, true, false)] MDone /\
+  identify_many c ks = MOut [(OSnapshot, false, true, false)] MUsageEnd /\
+  spec_many c ks = identify_many c ks.
+Proof. exact many_refuted_old_stopswallowed. Qed.
+Print Assumptions C18_many_refuted_old_stop_swallowed.
+
 (* Each old behaviour broke exactly its class of in-scope configurations
-   (24, 20, 16, 24 and 96 of the 912). *)
+   (24, 28, 16, 24, 96 and 24 of the 1056). *)
 Theorem C18_old_deviations_exact : forall c, in_scope c = true ->
   (identify_old_realpath c <> spec c <-> old_realpath_class c = true) /\
   (identify_old_rectype c <> spec c <-> old_rectype_class c = true) /\
   (identify_old_autolink c <> spec c <-> old_autolink_class c = true) /\
   (identify_old_recfollows c <> spec c <-> old_recfollows_class c = true) /\
-  (identify_old_originuncaught c <> spec c <-> old_originuncaught_class c = true).
+  (identify_old_originuncaught c <> spec c <-> old_originuncaught_class c = true) /\
+  (identify_old_stopswallowed c <> spec c <-> old_stopswallowed_class c = true).
 Proof. exact old_deviations_exact. Qed.
 Print Assumptions C18_old_deviations_exact.
 
@@ -137,8 +160,8 @@ Theorem C18_in_scope_satisfiable :
              identify_model c = Print ODirAtLinkTarget true false true /\ spec c = identify_model c) /\
   (exists c, in_scope c = true /\ nondefault c >= 3 /\
              identify_model c = Exit0 /\ spec c = Exit0) /\
-  length (filter in_scope all_cfgs) = 912 /\
-  length (filter in_scope_literal all_cfgs) = 864.
+  length (filter in_scope all_cfgs) = 1056 /\
+  length (filter in_scope_literal all_cfgs) = 960.
 Proof. exact in_scope_satisfiable. Qed.
 Print Assumptions C18_in_scope_satisfiable.
 
